@@ -440,7 +440,7 @@ class Exec(Engine):
             st.assume(z3.ForAll([k], z3.Implies(z3.And(0 <= k, k < ln), a2[k] == n.a[lo_c + k]),
                                 patterns=[a2[k]]))
             ref = st.alloc(Arr(n.elem, a2, ln, n.flavour))
-            st.marks.setdefault('__views__', {})
+            st.node(ref).slice_of = (n.a, lo_c, ln)       # provenance (used by the model of ndarray.sum)
             return [Result(st, ref)]
         raise EngineError('%s:%d: slice of %s' % (self.rel, line, base.kind))
 
@@ -932,8 +932,13 @@ class Exec(Engine):
             for x in states:
                 for nm in names:
                     for lem in hooks.get(nm, []):
-                        # ghost: a lemma about the value just assigned (proved here, then available)
-                        self.prove_lemma(self.cur, x, lem)
+                        # ghost: a lemma / fact about the value just assigned (proved here, then available)
+                        if isinstance(lem, str):
+                            t = self.sbool(lem, x)
+                            self.oblige(x, 'fact-after-%s/%d' % (nm, hooks[nm].index(lem)), t, s.lineno)
+                            x.assume(t)
+                        else:
+                            self.prove_lemma(self.cur, x, lem)
             out.extend(Result(x) for x in states)
         return out
 
@@ -1154,7 +1159,8 @@ class Exec(Engine):
 
         def canon(h):
             return ''.join(ch for ch in h if ch not in '() ')
-        same_shape = want is None or canon(want.split(' in ')[0]) == canon(have.split(' in ')[0])
+        same_shape = want is None or canon(want.split(' in ')[0]) == canon(have.split(' in ')[0]) \
+            or (want.startswith('while ') and have.startswith('while '))
         if want is not None and canon(want) != canon(have) and same_shape:
             # bounds / iterable edited: the invariants are still attached to this loop and are
             # checked against the new header (they fail if the edit matters)
@@ -1272,8 +1278,8 @@ class Exec(Engine):
             # ghost functions / lemmas introduced at this loop's entry (they may speak about locals defined by then)
             st = st.copy()
             self.declare_ghost_dict(lc.get('ghost', {}), st, tag)
-            for lem in lc.get('lemmas', []):
-                self.prove_lemma(self.cur, st, lem)
+            for j, lem in enumerate(lc.get('lemmas', [])):
+                self.lemma_or_fact(st, lem, '%s/entry-fact%d' % (tag, j), line)
         invs = lc.get('invariant', [])
         ivar = '__i%d' % ordinal
         idx_name = lc.get('index', ivar)
@@ -1328,15 +1334,15 @@ class Exec(Engine):
             k = fresh(idx_name.strip('_') or 'i', I)
             it = hv.copy()
             it.assume(lo <= k, k < hi)
-            for t in inv_terms(it, k):
-                it.assume(t)
+            for j, t in enumerate(inv_terms(it, k)):
+                it.assume(t, tag='%s/inv%d' % (tag, j))
             body_states = []
             for r0 in self.assign(s.target, elem(it, k), it):
                 body_states.append(r0.st)
         else:
             it = hv.copy()
-            for t in inv_terms(it, None):
-                it.assume(t)
+            for j, t in enumerate(inv_terms(it, None)):
+                it.assume(t, tag='%s/inv%d' % (tag, j))
             body_states = []
             dec0 = None
             for r in self.ev(s.test, it):
@@ -1346,9 +1352,14 @@ class Exec(Engine):
                 yes, no = self.fork(r.st, self.truth(r.st, r.val))
                 body_states.extend(yes)
         after_break = []
+        hidden_before = set(self.hidden)
+        self.hidden |= set(lc.get('hide', []))
+        body_results_guard = True
         for bs in body_states:
             if not self.feasible(bs):
                 continue
+            bs.marks = dict(bs.marks)
+            bs.marks[tag + '-iter'] = bs.snapshot()       # the state at the start of this iteration
             dec0 = None
             if lc.get('decreases') is not None:
                 dec0 = to_int(self.sev(lc['decreases'], bs))
@@ -1356,26 +1367,47 @@ class Exec(Engine):
             for r in self.exec_block(s.body, bs):
                 if r.flow in ('normal', 'continue'):
                     self.oblige(r.st, 'sentinel/%s-body-reachable' % tag, z3.BoolVal(False), line)
-                    if is_for:
-                        for j, t in enumerate(inv_terms(r.st, k + 1)):
-                            self.oblige(r.st, '%s/inv%d-preserved' % (tag, j), t, line)
-                    else:
-                        for j, t in enumerate(inv_terms(r.st, None)):
-                            self.oblige(r.st, '%s/inv%d-preserved' % (tag, j), t, line)
+                    for j, lem in enumerate(lc.get('body_end', [])):
+                        # ghost: lemmas / facts at the end of the loop body (before the invariant is re-established)
+                        if isinstance(lem, dict) and lem.get('when') is not None:
+                            when = self.sbool(lem['when'], r.st)
+                            sub = r.st.copy()
+                            sub.assume(when)
+                            if not self.feasible(sub):
+                                continue
+                            try:
+                                self.lemma_or_fact(sub, lem, '%s/body-end%d' % (tag, j), line)
+                            except EngineError:
+                                # the ghost step cannot even be stated on this path (a name it speaks about is not
+                                # defined here): reported as an undischarged obligation
+                                self.oblige(sub, 'reachability/%s-body-end%d-statable' % (tag, j), z3.BoolVal(False), line)
+                                continue
+                            # what was established under `when` is kept as an implication
+                            for t in sub.pc[len(r.st.pc) + 1:]:
+                                r.st.assume(z3.Implies(when, t))
+                        else:
+                            self.lemma_or_fact(r.st, lem, '%s/body-end%d' % (tag, j), line)
+                    hide_for = lc.get('hide_for', {})
+                    for j, t in enumerate(inv_terms(r.st, k + 1) if is_for else inv_terms(r.st, None)):
+                        saved = set(self.hidden)
+                        self.hidden |= set(hide_for.get(j, []))     # hypotheses irrelevant for this invariant
+                        self.oblige(r.st, '%s/inv%d-preserved' % (tag, j), t, line)
+                        self.hidden = saved
                         if dec0 is not None:
                             self.oblige(r.st, '%s/decreases' % tag, to_int(self.sev(lc['decreases'], r.st)) < dec0, line)
                 elif r.flow == 'break':
                     after_break.append(Result(r.st))
                 else:
                     out.append(r)
+        self.hidden = hidden_before
         # 3. after the loop
         ex = hv.copy()
         if is_for:
             kend = z3.If(hi > lo, hi, lo)
-            for t in inv_terms(ex, kend):
-                ex.assume(t)
-            for lem in lc.get('lemmas_after', []):
-                self.prove_lemma(self.cur, ex, lem)
+            for j, t in enumerate(inv_terms(ex, kend)):
+                ex.assume(t, tag='%s/inv%d' % (tag, j))
+            for j, lem in enumerate(lc.get('lemmas_after', [])):
+                self.lemma_or_fact(ex, lem, '%s/exit-fact%d' % (tag, j), line)
             # python leaves the loop variable at its last value; the verified code never
             # relies on it, so it is left unconstrained (havoced above)
             if self.feasible(ex):
@@ -1462,8 +1494,11 @@ class Exec(Engine):
             fn = z3.Function(inst, *([self.sort_of_kind(k) for k in argk] + [self.sort_of_kind(retk)]))
             self.ghosts[name] = (fn, argk, retk)
         for name, g in ghost.items():
+            # the characterising axioms of a ghost function are only consistent under these conditions: proved first
+            for j, req in enumerate(g.get('requires', [])):
+                self.oblige(st, 'ghost-%s/defined%d' % (name, j), self.sbool(req, st), 0)
             for ax in g.get('axioms', []):
-                st.assume(self.sbool(ax, st))
+                st.assume(self.sbool(ax, st), tag='ghost/' + name)
 
     # ------------------------------------------------------------------
     # verifying one function
@@ -1494,6 +1529,7 @@ class Exec(Engine):
         self.inlined = set()
         self.used_contracts = set()
         self.notes = []
+        self.hidden = set()
         nloops = self.index_loops(fnode)
         for k in c.loops:
             if k >= nloops:
@@ -1676,6 +1712,22 @@ class Exec(Engine):
                         return '%s.%s' % (k, f)
         return 'node%d' % nid
 
+    def lemma_or_fact(self, st, lem, name, line):
+        if isinstance(lem, str):
+            t = self.sbool(lem, st)
+            self.oblige(st, name, t, line)
+            st.assume(t, tag='lemma/' + name)
+        elif 'assume' in lem:
+            # an instance of an axiom of an uninterpreted ghost predicate, used only here (listed in the trusted base)
+            st.assume(self.sbool(lem['assume'], st))
+            self.assumed.append(lem.get('why', lem['assume']))
+        elif 'fact' in lem:
+            t = self.sbool(lem['fact'], st)
+            self.oblige(st, name, t, line)
+            st.assume(t, tag='lemma/' + lem.get('name', name))
+        else:
+            self.prove_lemma(self.cur, st, lem)
+
     def prove_lemma(self, c, st, lem):
         """lemma by induction on an integer variable v >= base:
         obligations  stmt[v:=base]  and  v >= base /\\ stmt[v] => stmt[v+1];
@@ -1689,6 +1741,10 @@ class Exec(Engine):
         hyp = self.sbool(lem['stmt'], st, {var: VInt(k)})
         step_st = st.copy()
         step_st.assume(k >= base, hyp)
+        for m in lem.get('mention', []):
+            # ground terms the solver should know about (they trigger the unfolding axioms of ghost functions)
+            t = self.sev(m, step_st, {var: VInt(k)}).term
+            step_st.assume(z3.Function('mention!%s' % t.sort().name(), t.sort(), B)(t))
         if lem.get('upto') is not None:
             step_st.assume(k < to_int(self.sev(lem['upto'], st)))
         self.oblige(step_st, 'lemma-%s/step' % name, self.sbool(lem['stmt'], st, {var: VInt(k + 1)}), 0)
@@ -1701,7 +1757,7 @@ class Exec(Engine):
         if lem.get('trigger'):
             pats = [self.sev(lem['trigger'], st, {var: VInt(q)}).term]
         st.assume(z3.ForAll([q], z3.Implies(guard, body), patterns=pats) if pats
-                  else z3.ForAll([q], z3.Implies(guard, body)))
+                  else z3.ForAll([q], z3.Implies(guard, body)), tag='lemma/' + name)
 
 
 import itertools as _it
